@@ -370,16 +370,19 @@ theorem oneshot_eq_stream (id : FilterId) (hid : id = .x86 ∨ id = .arm64 ∨ i
   have hne : (x.length == 0) = false := by simp; omega
   have hcap0 : cap > 0 := by omega
   rcases hid with rfl | rfl | rfl
-  · refine ⟨_, _, by simp [Coder.init, FilterId.alignment], rfl, ?_⟩
-    simp [simpleCode, simpleCodeMain, copyOrCode, callFilter, filterCode, hmin, hne, hcap0, LZMA_STREAM_END, LZMA_OK]
+  · refine ⟨⟨.x86, enc, Next.passthrough, false, off, 10, 0, 0, 0, [], X86State.init⟩, _, by simp [Coder.init, FilterId.alignment, FilterId.unfilteredMax, Nat.mod_one], rfl, ?_⟩
+    simp [simpleCode, simpleCodeMain, copyOrCode, callFilter, filterCode, hmin, hne, hcap0, LZMA_STREAM_END]
+    rfl
   · have h4 : off &&& 3#32 = 0#32 := and_of_mod (k := 2) off (by omega) hal
-    have hoff : off &&& ~~~ 3#32 = off := and_not3 off h4
-    refine ⟨_, _, by simp [Coder.init, hal], rfl, ?_⟩
-    simp [simpleCode, simpleCodeMain, copyOrCode, callFilter, filterCode, hmin, hne, hcap0, hoff, LZMA_STREAM_END, LZMA_OK]
+    have hoff : off &&& 4294967292#32 = off := and_not3 off h4
+    have hal' : off.toNat % 4 = 0 := hal
+    refine ⟨⟨.arm64, enc, Next.passthrough, false, off, 8, 0, 0, 0, [], X86State.init⟩, _, by simp [Coder.init, FilterId.alignment, FilterId.unfilteredMax, hal'], rfl, ?_⟩
+    simp [simpleCode, simpleCodeMain, copyOrCode, callFilter, filterCode, hmin, hne, hcap0, hoff, LZMA_STREAM_END]
   · have h2 : off &&& 1#32 = 0#32 := and_of_mod (k := 1) off (by omega) hal
-    have hoff : off &&& ~~~ 1#32 = off := and_not1 off h2
-    refine ⟨_, _, by simp [Coder.init, hal], rfl, ?_⟩
-    simp [simpleCode, simpleCodeMain, copyOrCode, callFilter, filterCode, hmin, hne, hcap0, hoff, LZMA_STREAM_END, LZMA_OK]
+    have hoff : off &&& 4294967294#32 = off := and_not1 off h2
+    have hal' : off.toNat % 2 = 0 := hal
+    refine ⟨⟨.riscv, enc, Next.passthrough, false, off, 16, 0, 0, 0, [], X86State.init⟩, _, by simp [Coder.init, FilterId.alignment, FilterId.unfilteredMax, hal'], rfl, ?_⟩
+    simp [simpleCode, simpleCodeMain, copyOrCode, callFilter, filterCode, hmin, hne, hcap0, hoff, LZMA_STREAM_END]
 
 /-! ## Bridges to what the code under test does today (lean/XzVerif/Gen/C15.lean is regenerated on every check by running it) -/
 
